@@ -6,7 +6,7 @@ import ast
 from ..cfg import typestate, witness_path
 from ..core import INCONCLUSIVE, OK, VIOLATION, Ctx, Ob, is_self_attr
 from ..model import AnalysisError, norm
-from .common import active_store, calls_method, cond_consult, node_has_effect, stop_call_kind
+from .common import consult_verdict, sc_flag_names, active_store, calls_method, cond_consult, node_has_effect, stop_call_kind
 
 EXPLANATION = """
 Static decision of the control-shape clause of C05 on the current source of /repo/pyhms: (R05.1) in
@@ -53,12 +53,11 @@ def r05_1(ctx: Ctx):
     unknown = []
 
     def edge_fn(n, lab, s):
-        pol = cond_consult(ctx, f, n, "gsc")
-        if pol == 2:
+        verdict = consult_verdict(ctx, f, n, "gsc", lab)
+        if verdict == "?":
             unknown.append(n)
             return s
-        if pol != 0 and lab in (True, False):
-            verdict = lab if pol == 1 else (not lab)
+        if verdict is not None:
             return "TRUE" if verdict else "FALSE"
         return s
 
@@ -148,7 +147,7 @@ def r05_2(ctx: Ctx):
     return obs
 
 
-def r05_3(ctx: Ctx):
+def r05_3(ctx: Ctx, need_gsc: bool = True):
     """R05.3 run_step: run_sprout is control-dependent on the false outcome of a GSC consult that follows run_metaepoch."""
     f = ctx.prog.own_method("DemeTree", "run_step")
     me = ctx.prog.own_method("DemeTree", "run_metaepoch")
@@ -164,18 +163,19 @@ def r05_3(ctx: Ctx):
                 viol.append((n, s, "run_metaepoch called again after run_sprout in the same step"))
             return [(True, False, sprouted)]
         if n.ast is not None and calls_method(n.ast, ctx, f, sp):
-            if not (ran and ok):
+            if not ran:
+                viol.append((n, s, "run_sprout reachable before run_metaepoch in a step"))
+            elif need_gsc and not ok:
                 viol.append((n, s, "run_sprout reachable without (run_metaepoch; GSC consult with outcome false)"))
             return [(ran, False, True)]
         return [s]
 
     def edge_fn(n, lab, s):
-        pol = cond_consult(ctx, f, n, "gsc")
-        if pol == 2:
+        verdict = consult_verdict(ctx, f, n, "gsc", lab)
+        if verdict == "?":
             unknown.append(n)
             return s
-        if pol != 0 and lab in (True, False):
-            verdict = lab if pol == 1 else (not lab)
+        if verdict is not None:
             return (s[0], (not verdict) and s[0], s[2])
         return s
 
@@ -197,7 +197,24 @@ def r05_3(ctx: Ctx):
     return obs
 
 
-def engine_typestate(ctx: Ctx, f, rule="R05.4"):
+def _call_effects(ctx, f, call):
+    """Effects of one call expression (through the resolver's targets)."""
+    out = set()
+    for cs in ctx.res.callsites(f):
+        if cs.node is call:
+            for t in cs.targets:
+                out |= set(ctx.eff.of(t))
+            if cs.external:
+                from ..effects import classify_external
+
+                try:
+                    out |= set(classify_external(cs.external) or ())
+                except Exception:  # noqa: BLE001
+                    pass
+    return out
+
+
+def engine_typestate(ctx: Ctx, f, rule="R05.4", between_generations: bool = True):
     """CLEAN -EVAL-> DIRTY -GSC false-> CLEAN; DIRTY -EVAL-> X; GSC true -> STOPPING; STOPPING -EVAL-> X;
     STOPPING at exit requires a preceding `_active = False`."""
     cfg = ctx.cfg(f)
@@ -207,10 +224,42 @@ def engine_typestate(ctx: Ctx, f, rule="R05.4"):
     n_eval = 0
     eval_nodes = [n for n in cfg.nodes if node_has_effect(ctx, f, n, "EVAL")]
 
+    def single_point(n):
+        """The statement's only evaluations are direct single-point calls `<problem>.evaluate(x)` / `<individual>.evaluate()`
+        outside any comprehension: one objective call, not an engine iteration of its own."""
+        if n.ast is None:
+            return False
+        calls = [c for c in ast.walk(n.ast) if isinstance(c, ast.Call)]
+        in_comp = {id(x) for c in ast.walk(n.ast) if isinstance(c, (ast.ListComp, ast.GeneratorExp, ast.SetComp, ast.DictComp, ast.Lambda)) for x in ast.walk(c)}
+        evs = [c for c in calls if isinstance(c.func, ast.Attribute) and c.func.attr == "evaluate"]
+        others = [c for c in calls if c not in evs and any(e[0] == "EVAL" for e in _call_effects(ctx, f, c))]
+        return bool(evs) and not others and not any(id(c) in in_comp for c in evs)
+
+    single_nodes = {n.id for n in eval_nodes if single_point(n)}
+
+    flags = sc_flag_names(ctx, f, "gsc")
+
+    def stores_flag(n):
+        if n.kind != "stmt" or not isinstance(n.ast, (ast.Assign, ast.AnnAssign)) or getattr(n.ast, "value", None) is None:
+            return False
+        tg = n.ast.targets if isinstance(n.ast, ast.Assign) else [n.ast.target]
+        if not any(isinstance(t, ast.Name) and t.id in flags for t in tg):
+            return False
+        return any(isinstance(c, ast.Call) and stop_call_kind(ctx, f, c) == "gsc" for c in ast.walk(n.ast.value))
+
     def node_fn(n, s):
         gs, deact = s
+        if stores_flag(n):
+            # the verdict is stored in a local flag: consulted, outcome pending until the flag is tested
+            return [("FLAGGED" if gs in ("DIRTY", "FLAGGED", "CLEAN") else gs, deact)]
         if n in eval_nodes:
-            if gs == "DIRTY":
+            if gs == "FLAGGED":
+                if between_generations:
+                    viol.append((n, s, "the GSC verdict was stored in a flag but the engine evaluates again before acting on it"))
+                return [("DIRTY", deact)]
+            if gs == "DIRTY" and n.id in single_nodes:
+                return [(gs, deact)]
+            if gs == "DIRTY" and between_generations:
                 viol.append((n, s, "two evaluation sites on one path with no GSC consult (outcome false) between them"))
             elif gs == "STOPPING":
                 viol.append((n, s, "objective evaluated after the GSC was observed true"))
@@ -222,15 +271,16 @@ def engine_typestate(ctx: Ctx, f, rule="R05.4"):
         return [(gs, deact)]
 
     def edge_fn(n, lab, s):
-        pol = cond_consult(ctx, f, n, "gsc")
-        if pol == 2:
+        verdict = consult_verdict(ctx, f, n, "gsc", lab)
+        if verdict == "?":
             unknown.append(n)
             return s
-        if pol != 0 and lab in (True, False):
-            verdict = lab if pol == 1 else (not lab)
+        if verdict is not None:
             if verdict:
                 return ("STOPPING", s[1])
             return ("CLEAN" if s[0] != "STOPPING" else "STOPPING", s[1])
+        if s[0] == "FLAGGED" and lab is False and cond_consult(ctx, f, n, "gsc") == 3:
+            return ("CLEAN", s[1])  # the flag holding the latest verdict is false
         return s
 
     at, exits, parent = typestate(cfg, [("CLEAN", False)], node_fn, edge_fn)
@@ -248,20 +298,20 @@ def engine_typestate(ctx: Ctx, f, rule="R05.4"):
     for s in exits:
         if s[0] == "STOPPING" and not s[1]:
             obs.append(ctx.ob(rule, f, f.node, status=VIOLATION, detail="a path on which the GSC was observed true leaves run_metaepoch without `_active = False`", witness=witness_path(cfg, parent, cfg.exit.id, s), construct="exit-after-gsc-true"))
-        if s[0] == "DIRTY" and not s[1]:
+        if s[0] in ("DIRTY", "FLAGGED") and not s[1]:
             # one-shot engines deactivate unconditionally; every other engine consults the GSC after its last evaluation
             obs.append(ctx.ob(rule, f, f.node, status=VIOLATION, detail="a path leaves run_metaepoch after an evaluation without consulting the GSC and without deactivating the deme (the deme would never observe the stop condition)", witness=witness_path(cfg, parent, cfg.exit.id, s), construct="exit-dirty"))
     return obs, eval_nodes
 
 
-def r05_4(ctx: Ctx):
+def r05_4(ctx: Ctx, between_generations: bool = True):
     """R05.4 engine typestate on every concrete deme's run_metaepoch (evaluation / GSC consult alternation, stop on outcome true)."""
     obs = []
     for ci in ctx.concrete_demes():
         f = ctx.prog.lookup_method(ci, "run_metaepoch")
         if f is None or f.is_abstract:
             raise AnalysisError(f"{ci.name} has no run_metaepoch")
-        o, eval_nodes = engine_typestate(ctx, f)
+        o, eval_nodes = engine_typestate(ctx, f, between_generations=between_generations)
         ctx.count("engine_eval_sites", len(eval_nodes))
         if not eval_nodes:
             obs.append(ctx.ob("R05.4", f, f.node, status=INCONCLUSIVE, detail=f"{ci.name}.run_metaepoch has no statement with an evaluation effect (engine step not resolved)", construct="no-eval"))
